@@ -506,7 +506,25 @@ func (e *subEnv) knownTargets() []string {
 	return ts
 }
 
+// targetLess stores, through (*cache.Target).GnmiUpdate (Cache.GnmiUpdate refuses the shape), a notification whose prefix
+// names no target, at a path of its own that no other operation addresses. Under an ACL nobody is authorised for the
+// target "" (drvRPCACL), so nothing of it may ever be sent; it is not logged - the specification knows nothing of it and
+// any response that carries it is a response for a target the caller is not authorised for.
+func (e *subEnv) targetLess(t string) {
+	if tg := e.c.GetTarget(t); tg != nil {
+		tg.GnmiUpdate(&pb.Notification{
+			Timestamp: atomic.AddInt64(&subClock, 1),
+			Prefix:    &pb.Path{Origin: "oc"},
+			Update: []*pb.Update{{Path: &pb.Path{Elem: pathElems("tl", "x")},
+				Val: &pb.TypedValue{Value: &pb.TypedValue_IntVal{IntVal: atomic.AddInt64(&subClock, 1)}}}},
+		})
+	}
+}
+
 func (e *subEnv) writerOp(t string, o cacheOp) {
+	if e.sc.ACL != nil && o.Op == "GnmiUpdate" && o.Now%4 == 0 {
+		e.targetLess(t)
+	}
 	ev := trace.E{"ev": "winv", "t": t, "op": o.Op}
 	var n *pb.Notification
 	if o.Op == "GnmiUpdate" {
@@ -681,6 +699,10 @@ func (e *subEnv) quiesce() {
 	proj := []trace.E{}
 	for _, t := range e.knownTargets() {
 		e.c.Query(t, []string{}, func(p []string, _ *ctree.Leaf, v interface{}) error {
+			// (a leaf whose stored notification names no target is the driver's own aside, see targetLess)
+			if n, ok := v.(*pb.Notification); ok && e.sc.ACL != nil && n.GetPrefix().GetTarget() == "" {
+				return nil
+			}
 			if !isAuxPath(p) {
 				x := projLeaf(t, p, v)
 				x["kids"] = [][]string{trace.Strs(p)}
